@@ -329,6 +329,10 @@ class PathEval:
                     return
                 self.oblige(st, 'mul', pos, res, ty, 'mul')
                 val = res
+            elif base == 'Shl' and isinstance(a, Lin) and isinstance(b, Lin) and b.is_const() and 0 <= b.k < 128:
+                res = a.scale(2 ** b.k)
+                self.oblige(st, 'shl', pos, res, dty, 'left shift by %d (silently drops the high bits when it does not fit)' % b.k)
+                val = res
             elif base in ('Div', 'Rem') and isinstance(a, Lin) and isinstance(b, Lin) and b.is_const() and b.k > 0:
                 lo, hi = st.interval(a)
                 if lo >= 0:
